@@ -171,6 +171,7 @@ def analyse(f, prog, vpath, written_check=True):
     cls = classes(f)
     E = Eval(f, P, vpath)
     state = {f.entry: frozenset(n for n, _ in cls)}
+    edges = {}
     rep = dict(cls)
     work = [f.entry]
     used = set()
@@ -193,6 +194,7 @@ def analyse(f, prog, vpath, written_check=True):
         else:
             outs = [(s_, st) for s_ in b.succs]
         for nb, s2 in outs:
+            edges[(b.name, nb.name)] = edges.get((b.name, nb.name), frozenset()) | s2
             if not s2:
                 continue
             old = state.get(nb)
@@ -200,4 +202,5 @@ def analyse(f, prog, vpath, written_check=True):
             if old is None or new != old:
                 state[nb] = new
                 work.append(nb)
+    analyse.last_edges = edges
     return state, cls, sorted(used)
